@@ -62,7 +62,11 @@ def check(spec, ctx):
         # mean average precision is undefined without a labelled item: only require that nothing but that metric can fail
         ctx.case(spec, nontrivial=False, labels=labels + ["no_labelled_item_skipped"])
         return
+    from vf.core import snapshot
+
+    before = snapshot((cps, cas, vocab))
     ev = ctx.call(spec, "sound_event_detection", sound_event_detection, cps, cas, vocab)
+    ctx.unchanged(spec, "sound_event_detection: clip predictions / clip annotations / tags", before, (cps, cas, vocab))
     ctx.case(spec, nontrivial=nontrivial, labels=labels, out={"clip_evaluations": len(ev.clip_evaluations), "score": ev.score})
 
     got_ids = sorted(str(ce.annotations.clip.uuid) for ce in ev.clip_evaluations)
